@@ -291,13 +291,13 @@ def attr_value(typ):
         return st.booleans()
     if typ == "complex":
         return st.tuples(st.floats(-10, 10), st.floats(-10, 10)).map(lambda t: complex(*t))
-    return st.text(alphabet="abcXYZ019_", max_size=8)
+    return st.one_of(st.just(""), st.text(alphabet="abcXYZ019_", min_size=1, max_size=8), st.text(alphabet="abcXYZ019_", max_size=8))
 
 
 @st.composite
-def attr_spec(draw, k, containers, exotic):
+def attr_spec(draw, k, containers, exotic, force_type=None):
     cont = draw(st.sampled_from(containers))
-    typ = draw(st.sampled_from(["complex", "str"])) if exotic else draw(st.sampled_from(["float", "float", "int", "bool"]))
+    typ = force_type or (draw(st.sampled_from(["complex", "str"])) if exotic else draw(st.sampled_from(["float", "float", "int", "bool"])))
     dim = draw(st.sampled_from([1, 1, 2, 3]))
     name = draw(st.from_regex(r"[A-Za-z_][A-Za-z0-9_]{0,7}", fullmatch=True))
     if name in RESERVED:
@@ -308,6 +308,11 @@ def attr_spec(draw, k, containers, exotic):
     default = draw(st.one_of(st.none(), vv)) if dim == 1 else None
     vals = draw(st.lists(st.tuples(st.integers(0, 10 ** 4), one).map(list), max_size=6))
     fill = draw(st.sampled_from([None, None, 1, 2, 3]))
+    if typ == "str":
+        # text values are stored one per line and the empty string is a legal value (and the default): make values that are
+        # empty / never set *between* non-empty ones the common case
+        vals = draw(st.lists(st.tuples(st.integers(0, 10 ** 4), one).map(list), min_size=1, max_size=6))
+        fill = draw(st.sampled_from([None, None, None, 1]))
     return {"cont": cont, "name": name, "type": typ, "dim": dim, "dense": draw(st.booleans()), "default": default,
             "vals": vals, "fill": fill}
 
@@ -320,6 +325,10 @@ def case_strategy(draw, fmt):
                 "complete_edges_from_faces": draw(st.sampled_from([True, True, True, False]))}
     if fmt == "stl":
         ig = draw(st.sampled_from([None] * 14 + [["edges"], ["faces"], ["cells"]]))
+    elif fmt in ("obj", "mesh", "geogram_ascii") and c["kind"] in ("surface", "tets", "hexes"):
+        # dropping the top element kinds changes what the remaining mesh *is* (surface -> polyline, volume -> surface): frequent class
+        ig = draw(st.sampled_from([None] * 7 + [["faces"]] * 3 + [["faces", "cells"]] * 3 + [["cells"]] * 2 +
+                                  [["edges"], ["edges", "faces"], ["edges", "cells"], []]))
     else:
         ig = draw(st.sampled_from([None] * 8 + [["edges"], ["faces"], ["cells"], ["edges", "faces"], ["faces", "cells"], []]))
     c["ignore"] = ig
@@ -336,6 +345,8 @@ def case_strategy(draw, fmt):
         exotic = draw(st.integers(0, 9)) == 0
         for k in range(n):
             attrs.append(draw(attr_spec(k, conts, exotic and k == 0)))
+        if draw(st.integers(0, 3)) == 0:
+            attrs.append(draw(attr_spec(len(attrs), conts, True, force_type="str")))
     if fmt == "xyz" and draw(st.booleans()):
         attrs.append({"cont": "vertices", "name": "normals", "type": "float", "dim": 3, "dense": draw(st.booleans()), "default": None,
                       "vals": draw(st.lists(st.tuples(st.integers(0, 10 ** 4), st.lists(coord(), min_size=3, max_size=3)).map(list), max_size=5)),
@@ -551,11 +562,22 @@ def project(N, fmt, cfg, ignore):
     declared = [e for e, h in zip(E, hard) if h] if hard is not None else list(E)
     P = {"V": N["V"], "E": [[]], "F": [], "C": [], "hard_attr": None}
     if fmt in ("obj", "mesh"):
-        cands = [declared]
-        if "faces" in ignore and hard is not None and declared != E:
-            cands.append(E)     # with the faces dropped, writing the whole wireframe is as defensible as the declared edges only
-        if fmt == "obj" and not cfg["export_edges_in_obj"]:
-            cands = [[]]
+        remaining_dim = 3 if C else 2 if F else 1 if E else 0
+        if fmt == "obj":
+            # edges derivable from the faces / cells that are written are left out (only the declared = hard ones are kept);
+            # what remains after ignore_elements with edges as its top element kind is a polyline: all its edges are written
+            if not cfg["export_edges_in_obj"]:
+                cands = [[]]
+            elif remaining_dim == 1 or not cfg["complete_edges_from_faces"]:
+                cands = [E]
+            else:
+                cands = [declared]
+        else:
+            cands = [declared]
+            if remaining_dim == 1 and hard is not None and declared != E:
+                # medit keeps writing the declared edges only once the faces are dropped; the whole wireframe (what obj
+                # does) is the other defensible reading -> both accepted (stated in the report, not asserted)
+                cands.append(E)
         P["E"] = cands
         if fmt == "obj":
             P["F"] = F
@@ -733,6 +755,18 @@ def fn_roundtrip(case, ctx):
         return
     orig_attrs = attr_table(m, case)
     ignore = case.get("ignore")
+    for (cont, name), vals in orig_attrs.items():
+        a = [x for x in case["attrs"] if x["name"] == name][0]
+        if a["type"] == "str":
+            flat = [x for v in vals for x in (v if isinstance(v, list) else [v])]
+            last = max([i for i, x in enumerate(flat) if x != ""], default=-1)
+            if any(x == "" for x in flat[:last]):
+                ctx.label("attr:str:empty-before-nonempty")
+                ctx.label(f"attr:str:gap:x{a['dim']}:{'dense' if a['dense'] else 'sparse'}")
+                ctx.label("attr:str:gap-on:" + cont)
+    if ignore and case["kind"] in ("surface", "tets", "hexes") and ("faces" in ignore or "cells" in ignore):
+        rem = "cells" if (N["C"] and "cells" not in ignore) else "faces" if (N["F"] and "faces" not in ignore) else "edges" if (N["E"] and "edges" not in ignore) else "vertices"
+        ctx.label(f"ignore:{case['kind']}->top={rem}")
     P = project(N, fmt, cfg, ignore)
     d = tempfile.mkdtemp(prefix="c04_")
     try:
